@@ -154,7 +154,7 @@ class Check:
         return d
 
     def tlc(self, module, cfg=None, workers=None, simulate=None, depth=None, timeout=600, env=None,
-            coverage=False, dfs=False, deadlock=True, record=True, label=None, extra=None, heap=None):
+            coverage=False, dfs=False, deadlock=True, record=True, label=None, extra=None, heap=None, seed=None):
         d = self.specdir()
         cfg = cfg or (module + ".cfg")
         meta = os.path.join(self.scratch, "meta-%s-%d" % (module, int(time.time() * 1000) % 10 ** 9))
@@ -168,7 +168,7 @@ class Check:
         if not deadlock:
             cmd.append("-deadlock")
         if simulate is not None:
-            cmd += ["-simulate", "num=%d" % simulate, "-seed", str(self.seed)]
+            cmd += ["-simulate", "num=%d" % simulate, "-seed", str(self.seed if seed is None else seed)]
             if depth:
                 cmd += ["-depth", str(depth)]
         if coverage:
